@@ -18,7 +18,7 @@ def cp_cfg(rng: random.Random, tier: str) -> gen.GenCfg:
     return gen.GenCfg(
         n_ranks=rng.choice([1, 1, 2]), n_steps=rng.choice([0, 1, 2, 3]),
         p_launch=rng.choice([0.4, 0.7]), p_mem=0.2, p_comm=0.3,
-        p_sync=rng.choice([0.0, 0.1, 0.2]), p_event_sync=rng.choice([0.0, 0.0, 0.1]),
+        p_sync=rng.choice([0.0, 0.1, 0.2]), p_event_sync=rng.choice([0.0, 0.1, 0.1]),
         streams=rng.choice([(7,), (7, 9), (7, 9, 13)]),
         adv=rng.choice([(0, 0, 1, 1, 2, 3), (1, 2, 3), (0, 1, 2)]),
         kdelay=rng.choice([(0, 0, 1, 2, 4), (1, 2, 4)]), kgap=rng.choice([(0, 0, 1, 2, 5), (0, 1, 5, 30)]),
@@ -339,7 +339,7 @@ def replay_program(case: Dict[str, Any]) -> Dict[str, Any]:
 class C09(_CP):
     id = "C09"
     mc = [{"module": "MC_LongestPath", "quick": "MC_LongestPath_quick.cfg", "thorough": "MC_LongestPath.cfg", "actions": ["Walk"]}]
-    n_cases = {"quick": 150, "thorough": 2500}
+    n_cases = {"quick": 300, "thorough": 2500}
     rule = ("the graphs of C08's generator; plus two what-if copies per graph: ~30% of the edge weights replaced (0, doubled, +3, -1, halved) and "
             "critical_path() recomputed; non-trivial iff the path crosses host and device or a what-if copy changed the path")
     assumptions = ["optimality is checked with the weights the path algorithm uses (the networkx 'weight' attribute)"]
@@ -360,7 +360,7 @@ class C09(_CP):
 class C10(_CP):
     id = "C10"
     mc = [{"module": "MC_LongestPath", "quick": "MC_LongestPath_quick.cfg", "thorough": "MC_LongestPath.cfg", "actions": ["Walk"]}]
-    n_cases = {"quick": 150, "thorough": 2500}
+    n_cases = {"quick": 300, "thorough": 2500}
     rule = ("the graphs of C08's generator with get_critical_path_breakdown(), summary() and the attribution map recorded; non-trivial iff the path "
             "contains an End->Start span edge attributed to a parent operator or a kernel-kernel delay edge")
     assumptions = ["kernel names of the vocabulary decide the communication / compute class (CommNames in TraceModel.tla)"]
